@@ -659,9 +659,27 @@ CONCRETE_FUNCTIONALS = {
 # running one obligation
 # ----------------------------------------------------------------------------------------------
 class GoalResult(object):
-    def __init__(self, label, verdict, seconds, backend="z3", path=None, model=None, note=""):
+    def __init__(self, label, verdict, seconds, backend="z3", path=None, model=None, note="", opaque=False):
         self.label, self.verdict, self.seconds, self.backend = label, verdict, seconds, backend
         self.path, self.model, self.note = path, model, note
+        self.opaque = opaque      # the refuted formula mentions reduction atoms / uninterpreted functions: its model is
+                                  # a failure to prove, not a concrete counterexample
+
+
+def mentions_opaque(term):
+    seen = set()
+    stack = [term]
+    while stack:
+        t = stack.pop()
+        if t.get_id() in seen:
+            continue
+        seen.add(t.get_id())
+        if z3.is_app(t):
+            n = t.decl().name()
+            if n.startswith(("sum!", "fk_", "fv_", "afn_", "uf_")):
+                return True
+            stack.extend(t.children())
+    return False
 
 
 class ObResult(object):
@@ -687,7 +705,7 @@ class ObResult(object):
             "name": self.name, "status": self.status, "paths": self.paths, "seconds": round(self.seconds, 3),
             "solver_seconds": round(self.solver_seconds, 3), "solver_calls": self.solver_calls,
             "goals": [{"label": g.label, "verdict": g.verdict, "seconds": round(g.seconds, 4), "backend": g.backend,
-                       "path": g.path, "note": g.note} for g in self.goals],
+                       "path": g.path, "note": g.note, "opaque": getattr(g, "opaque", False)} for g in self.goals],
             "assumed": sorted(self.assumed), "note": self.note, "witness": self.witness, "replay": self.replay,
             "canary": self.canary, "cases": self.cases,
         }
@@ -998,7 +1016,7 @@ def run_obligation(o, timeout_ms=20000, max_paths=4096, second=False):
                     backend = "z3+" + (b2 or "none:" + v2)
                     if v2 == "sat":
                         verdict = "unknown"
-                g = GoalResult(label, verdict, dt, backend, path=pid)
+                g = GoalResult(label, verdict, dt, backend, path=pid, opaque=(verdict == "sat" and mentions_opaque(gz)))
                 res.goals.append(g)
                 res.backends[backend] = res.backends.get(backend, 0) + 1
                 if verdict == "sat":
